@@ -111,6 +111,19 @@ pub fn gen_c01(out: &mut impl Write, seed: u64, thorough: bool) {
             let nonce = r.bytes(local_nonce_len(be));
             writeln!(out, "loc.seal {} {} {} {} {} {}", be.name(), hex(&key), hex(&nonce), hex(&msg), hex(&f), hex(&a)).unwrap();
         }
+        // a payload type with a non-empty encoding suffix ("c"): header `vNc.purpose.`, suffix is part of the authenticated header
+        for len in [0usize, 7, 64] {
+            let msg = r.pattern(len);
+            let f = if len == 7 { r.bytes(4) } else { vec![] };
+            let a = if be.has_aad() && len == 64 { r.bytes(6) } else { vec![] };
+            writeln!(out, "o.rtc {} local {} {} {} {}", be.name(), hex(&key), hex(&msg), hex(&f), hex(&a)).unwrap();
+            writeln!(out, "o.rtc {} public {} {} {} {}", be.name(), hex(&sk), hex(&msg), hex(&f), hex(&a)).unwrap();
+            let nonce = r.bytes(local_nonce_len(be));
+            writeln!(out, "locc.seal {} {} {} {} {} {}", be.name(), hex(&key), hex(&nonce), hex(&msg), hex(&f), hex(&a)).unwrap();
+            if matches!(be, Be::V2 | Be::V4 | Be::V4S | Be::V3) {
+                writeln!(out, "pubc.sign {} {} {} {} {} -", be.name(), hex(&sk), hex(&msg), hex(&f), hex(&a)).unwrap();
+            }
+        }
         // a non-empty assertion on a version without assertions is refused when sealing
         if !be.has_aad() {
             writeln!(out, "loc.seal {} {} {} {} - 01", be.name(), hex(&key), hex(&r.bytes(local_nonce_len(be))), hex(&r.bytes(5))).unwrap();
@@ -161,10 +174,11 @@ pub fn gen_c02(out: &mut impl Write, seed: u64, thorough: bool) {
         let tl = match be.version() { 1 | 3 => 48, 2 => 16, _ => 32 };
         for ti in 0..ntok {
             let key = r.bytes(32);
-            let mlen = [0usize, 1, 16, 33, 64, 100][ti % 6];
+            // lengths on both sides of the 128 / 256 byte marks, so that every byte of a length prefix matters
+            let mlen = [0usize, 1, 16, 33, 64, 100, 128, 200][ti % 8];
             let msg = r.pattern(mlen);
-            let footer = if ti % 3 == 0 { vec![] } else { r.bytes_in(1, 24) };
-            let aad = if be.has_aad() && ti % 2 == 1 { r.bytes_in(1, 24) } else { vec![] };
+            let footer = if ti % 3 == 0 { vec![] } else if ti % 4 == 3 { r.bytes_in(128, 300) } else { r.bytes_in(1, 24) };
+            let aad = if be.has_aad() && ti % 2 == 1 { if ti % 8 == 5 { r.bytes_in(128, 260) } else { r.bytes_in(1, 24) } } else { vec![] };
             let nonce = r.bytes(nl);
             let Some(tok) = seal_local(be, &key, &nonce, &msg, &footer, &aad) else { continue };
             let hdr = format!("v{}.local.", be.version());
